@@ -3,23 +3,26 @@ set_option linter.unusedSimpArgs false
 /-!
 # C30 — page resource names chosen by the user cannot break the page
 
-A user-chosen name `n` (the UTF-8 bytes of a Rust `String`) is emitted at two sites:
+A user-chosen name `n` (the UTF-8 bytes of a Rust `String`) is emitted at two sites, through the
+same escaper `escape_pdf_name_bytes` (`Model.escapeName`: `#XX` for every byte outside `!`..`~`,
+for the delimiters and for `#`):
 * **dictionary site** — as a key of a resource sub-dictionary of the page (`write_object_value`:
-  `\n/` ++ name ++ ` ` ++ value) = `Model.ser`.  Since fix 16fac722 the name goes through
-  `escape_pdf_name_bytes` (`Model.escapeName`: `#XX` for every byte outside `!`..`~`, for the
-  delimiters and for `#`); before it was raw (`Model.serUnescaped`).
-* **content site** — as an operand in the content stream (`serialize_ops`: `/` ++ n ++ ` Do\n`,
-  `cs`, `CS`, `gs`, `ri`, `sh`, `/n size Tf`; `begin_marked_content`: `/n <</MCID k>> BDC`)
-  = `opName`, `opTf`, `opBDC`: still RAW.
+  `\n/` ++ esc(name) ++ ` ` ++ value) = `Model.ser`; escaped since fix 16fac722, raw before
+  (`Model.serUnescaped`);
+* **content site** — as an operand in the content stream (`serialize_ops`: `write_name_operand` +
+  ` Do\n`, `cs`, `CS`, `gs`, `ri`, `sh`, ` size Tf`; `begin_marked_content`: `escape_tag`)
+  = `opName`, `opTf`, `opBDC`; escaped since the repair of C30-F1/F2, raw before
+  (`opNameOld`, `opTfOld`, `opBDCOld`).
 It is read back by (i) the library's object lexer `Lexer.readName` (dictionary keys), (ii) the
 library's content tokenizer `CT.readName` (operands), (iii) an independent strict reader
 `Spec.Syntax.readName` (ISO 32000-1 §7.3.5).
 
-So: the dictionary half of the property is now proved for ALL names (byte level; `String` level
-for ASCII names — the object lexer still turns bytes ≥ 0x80 into mojibake, witness below); the
-content half is FALSE of the code: kept as `FULL`, proved on the decidable fragment `SafeName`
-(`…_partial`, induction over the name, no length bound), refuted by kernel-checked witnesses, and
-the specification of its repair (the same escaping at the content site) is proved for ALL names.
+The property is proved for ALL names at both sites at the byte level (every valid-UTF-8 byte string,
+no length bound, induction over the name): key and operand lex back to the same name, the user's;
+the surrounding one-entry dictionary / operator line parses to exactly the authored structure.
+One part stays partial: the `String` the library's OBJECT LEXER builds from the key bytes
+(`byte as char`) equals the user's only for ASCII names (`C30_witness_non_ascii`, finding C30-F3).
+The statements about the `…Old` / `serUnescaped` emitters are the regressions the check must catch.
 -/
 namespace OxiVerif.C30
 open OxiVerif.Spec.Syntax (Obj)
@@ -40,10 +43,10 @@ def endsContent (d : List Nat) : Bool := specEnds d && ctEnds d
        `CT.parseView (opName n kw) = some [(kw, n)]` and
        `Syntax.readContent (opName n kw) = some [.operand (.name n), .operator kw]`;
    hence key and operand are the SAME name, equal to the user's.
-   (D) holds for all `n` under the independent reader (`C30_resource_dict_spec`) and for all ASCII `n`
-   under the library (`C30_resource_dict_lib_partial`; false for non-ASCII: `C30_witness_non_ascii`).
-   (C) is false: `C30_witness_*`; true on `SafeName` (`C30_name_operator_partial`); true for all `n`
-   once `serialize_ops` escapes (`C30_escaped_name_operator`). -/
+   (C) is proved in full (`C30_name_operator`, `C30_key_and_operand_same_name`).
+   (D) is proved in full for the independent reader (`C30_resource_dict_spec`) and at the byte level
+   for the library (`C30_dict_key_all_names`); at the `String` level for all ASCII `n`
+   (`C30_resource_dict_lib_partial`) — false for non-ASCII `n`: `C30_witness_non_ascii`. -/
 
 /-! ## the dictionary site (escaped since fix 16fac722) -/
 
@@ -132,33 +135,34 @@ theorem C30_fixed_witness_injected_key :
     Syntax.read (serUnescaped (.dict [([120, 32, 54, 32, 48, 32, 82, 32, 47, 73, 110, 106], .ref 6 0)]))
       = some (.dict [([120], .ref 6 0), ([73, 110, 106], .ref 6 0)], []) := by rfl
 
-/-! ## the content site (raw) -/
+/-! ## the content site (escaped since the repair of C30-F1/F2) -/
 
-/-- For every safe name (regular characters, no `#`, ASCII — any length, the empty name included)
-    the raw operand is read back as the user's name by the independent reader and by the content
-    tokenizer — the same name the dictionary site yields (`C30_dict_key_all_names`). -/
-theorem C30_raw_operand_roundtrip_partial (n d : List Nat) (hn : SafeName n = true) (hd : endsContent d = true) :
-    Syntax.readName (n ++ d) = some (n, d) ∧ CT.readName (n ++ d) = .tok (.name n) d := by
+/-- EVERY name (every byte string that is valid UTF-8, i.e. every Rust `String`) written as an
+    operand is read back as itself by the independent reader and by the library's content
+    tokenizer (`decode_name` decodes the escapes) -/
+theorem C30_operand_all_names (n d : List Nat) (hb : NameBytes n = true)
+    (hu : CT.validUtf8 n = true) (hd : endsContent d = true) :
+    Syntax.readName (escapeName n ++ d) = some (n, d) ∧
+    CT.readName (escapeName n ++ d) = .tok (.name n) d := by
   simp [endsContent] at hd
-  exact ⟨spec_readName_raw n d (safe_specOk n hn) hd.1,
-    ct_readName_raw n d (safe_reg n hn) (validUtf8_ascii n (safe_ascii n hn)) hd.2⟩
+  exact ⟨spec_readName_escName n d hb hd.1, ct_readName_esc n d hb hu hd.2⟩
 
-example : SafeName [73, 109, 49, 45, 95, 46, 43, 1, 127] = true ∧ SafeName [] = true ∧ endsContent [32, 68] = true := by decide
+example : NameBytes (myImage ++ [35, 47, 40, 0, 195, 169]) = true ∧
+    CT.validUtf8 (myImage ++ [35, 47, 40, 0, 195, 169]) = true ∧ endsContent [32, 68] = true := by decide
 
-/-- the alphabet named in the plan (printable ASCII without delimiters and `#`) is inside `SafeName` -/
-theorem C30_printable_names_safe (n : List Nat) (h : PrintableName n = true) : SafeName n = true :=
-  printable_safe n h
+/-- the key written in the resources dictionary and the operand written in the content stream lex
+    back to the SAME name, the user's: for the independent reader at both sites, for the library's
+    object lexer (bytes) at the dictionary site and its content tokenizer at the content site -/
+theorem C30_key_and_operand_same_name (n d1 d2 : List Nat) (hb : NameBytes n = true)
+    (hu : CT.validUtf8 n = true) (h1 : endsDict d1 = true) (h2 : endsContent d2 = true) :
+    Syntax.readName (escapeName n ++ d1) = some (n, d1) ∧
+    Lexer.readName (escapeName n ++ d1) = .ok (n, d1) ∧
+    Syntax.readName (escapeName n ++ d2) = some (n, d2) ∧
+    CT.readName (escapeName n ++ d2) = .tok (.name n) d2 :=
+  ⟨(C30_dict_key_all_names n d1 hb h1).1, (C30_dict_key_all_names n d1 hb h1).2,
+   (C30_operand_all_names n d2 hb hu h2).1, (C30_operand_all_names n d2 hb hu h2).2⟩
 
-example : PrintableName [77, 121, 73, 109, 97, 103, 101, 33, 126] = true := by decide
-
-/-- the same for non-ASCII names made of regular bytes (valid UTF-8) -/
-theorem C30_raw_operand_bytes_partial (n d : List Nat) (hn : RegName n = true) (hu : CT.validUtf8 n = true)
-    (hd : endsContent d = true) :
-    Syntax.readName (n ++ d) = some (n, d) ∧ CT.readName (n ++ d) = .tok (.name n) d := by
-  simp [endsContent] at hd
-  exact ⟨spec_readName_reg n d hn hd.1, ct_readName_raw n d hn hu hd.2⟩
-
-example : RegName [195, 169, 226, 130, 172] = true ∧ CT.validUtf8 [195, 169, 226, 130, 172] = true := by decide
+example : endsDict [32, 54, 32, 48, 32, 82] = true ∧ endsContent [32, 49, 50, 32, 84, 102, 10] = true := by decide
 
 /-- where `validate_pdf_resource_name` is called (`add_form_xobject`, `add_color_space`,
     `add_pattern`, `add_shading`) an accepted name is non-empty and made of regular characters
@@ -244,89 +248,28 @@ theorem spec_content_name_kw (body n kw : List Nat) (hk : nameKw kw = true)
 theorem endsContent_space (r : List Nat) : endsContent (32 :: r) = true := by
   simp [endsContent, specEnds, ctEnds, Syntax.isRegular, Syntax.isWhite, CT.isNameBreak, CT.isWs]
 
-/-- (C) on the safe fragment: `/n Do\n` (and `cs`, `CS`, `sh`, `gs`) written by `serialize_ops` is
+/-- (C) for ALL names: `/esc(n) Do\n` (and `cs`, `CS`, `sh`, `gs`) written by `serialize_ops` is
     parsed by the library's `ContentParser` to exactly one operator with the operand `n`, and an
-    ISO 32000-1 reader sees exactly the operand `/n` followed by the operator -/
-theorem C30_name_operator_partial (n kw : List Nat) (hn : SafeName n = true) (hk : nameKw kw = true) :
+    ISO 32000-1 reader sees exactly the operand `/n` followed by the operator — no token of the
+    name leaks into the stream -/
+theorem C30_name_operator (n kw : List Nat) (hb : NameBytes n = true)
+    (hu : CT.validUtf8 n = true) (hk : nameKw kw = true) :
     CT.parseView (opName n kw) = some [(kw, n)] ∧
     Syntax.readContent (opName n kw) = some [.operand (.name n), .operator kw] := by
-  have h := C30_raw_operand_roundtrip_partial n (32 :: (kw ++ [10])) hn (endsContent_space _)
-  exact ⟨parseView_name_kw n n kw hk h.2, spec_content_name_kw n n kw hk h.1⟩
+  have h := C30_operand_all_names n (32 :: (kw ++ [10])) hb hu (endsContent_space _)
+  exact ⟨parseView_name_kw (escapeName n) n kw hk h.2, spec_content_name_kw (escapeName n) n kw hk h.1⟩
 
-example : nameKw kDo = true ∧ nameKw ksh = true ∧ opName [73, 109] kDo = [47, 73, 109, 32, 68, 111, 10] := by decide
+example : nameKw kDo = true ∧ nameKw ksh = true ∧
+    opName myImage kDo = [47, 77, 121, 35, 50, 48, 73, 109, 97, 103, 101, 32, 68, 111, 10] := by decide
 
-/-! ## counter-witnesses (the content site as it is) -/
-
-/-- `draw_image("My Image", …)` writes `/My Image Do`: the library's content parser finds no `Do`
-    with a name operand at all (the operand stack holds `/My` when the unknown operator `Image`
-    clears it); an ISO reader sees the name `My`, an operator `Image`, and a `Do` without operand -/
-theorem C30_witness_space_content :
-    CT.parseView (opName myImage kDo) = some [] ∧
-    Syntax.readContent (opName myImage kDo) = some [.operand (.name [77, 121]), .operator [73, 109, 97, 103, 101], .operator kDo] := by
-  constructor <;> rfl
-
-/-- hence (C) fails for it -/
-theorem C30_witness_space_content_ne :
-    ¬ (CT.parseView (opName myImage kDo) = some [(kDo, myImage)]) := by
-  rw [C30_witness_space_content.1]; decide
-
-/-- the two sites now disagree: the resource key written for `My Image` resolves (both readers
-    return the user's name), the operand that should select it does not -/
-theorem C30_witness_key_resolves_operand_does_not :
-    Syntax.read (ser (.dict [(myImage, .ref 6 0)])) = some (.dict [(myImage, .ref 6 0)], []) ∧
-    ObjParser.parse (ser (.dict [(myImage, .ref 6 0)]) ++ [10]) = .ok (.dict [(myImage, .ref 6 0)], [10]) ∧
-    Syntax.readName (myImage ++ [32, 68, 111, 10]) = some ([77, 121], [32, 73, 109, 97, 103, 101, 32, 68, 111, 10]) ∧
-    CT.readName (myImage ++ [32, 68, 111, 10]) = .tok (.name [77, 121]) [32, 73, 109, 97, 103, 101, 32, 68, 111, 10] := by
-  refine ⟨by rfl, by rfl, by rfl, by rfl⟩
-
-/-- `A#42` as an operand is read back as `AB` by both content readers (the key stays `A#42`) -/
-theorem C30_witness_hash :
-    Syntax.readName ([65, 35, 52, 50] ++ [32]) = some ([65, 66], [32]) ∧
-    CT.readName ([65, 35, 52, 50] ++ [32]) = .tok (.name [65, 66]) [32] ∧
-    Syntax.readName (escapeName [65, 35, 52, 50] ++ [32]) = some ([65, 35, 52, 50], [32]) := by
-  refine ⟨by rfl, by rfl, by rfl⟩
-
-/-- `A#zz`: the independent reader rejects the operand, the content tokenizer fails (and silently
-    drops the rest of the content stream) -/
-theorem C30_witness_hash_invalid :
-    Syntax.readName ([65, 35, 122, 122] ++ [32]) = none ∧
-    CT.readName ([65, 35, 122, 122] ++ [32]) = .err ∧
-    CT.parseView (opName [65, 35, 122, 122] kDo ++ opName [66] kDo) = some [] := by
-  refine ⟨by rfl, by rfl, by rfl⟩
-
-/-- `A/B`: read as the name `A` followed by the name `B` — `Do` paints `B` -/
-theorem C30_witness_solidus :
-    Syntax.readName ([65, 47, 66] ++ [32]) = some ([65], [47, 66, 32]) ∧
-    CT.parseView (opName [65, 47, 66] kDo) = some [(kDo, [66])] := by
-  refine ⟨by rfl, by rfl⟩
-
-/-- `A(B`: the `(` opens a literal string that swallows the rest of the content stream -/
-theorem C30_witness_paren :
-    CT.parseView (opName [65, 40, 66] kDo) = some [] ∧
-    Syntax.readContent (opName [65, 40, 66] kDo) = none := by
-  refine ⟨by rfl, by rfl⟩
-
-/-- NUL is white space for ISO 32000-1 but an ordinary name byte for the library's content
-    tokenizer: the library reads its own content stream back, a conforming reader does not -/
-theorem C30_witness_nul :
-    Syntax.readName ([65, 0, 66] ++ [32]) = some ([65], [0, 66, 32]) ∧
-    CT.readName ([65, 0, 66] ++ [32]) = .tok (.name [65, 0, 66]) [32] := by
-  refine ⟨by rfl, by rfl⟩
-
-/-! ## the repair's specification: the same `#XX` escaping at the content site -/
-
-/-- With the escaping emitter EVERY name (every byte string that is valid UTF-8, i.e. every Rust
-    `String`) used as an operand is read back as itself by the independent reader and by the
-    library's content tokenizer (`decode_name` decodes the escapes) -/
-theorem C30_escaped_operand_all_names (n d : List Nat) (hb : NameBytes n = true)
-    (hu : CT.validUtf8 n = true) (hd : endsContent d = true) :
-    Syntax.readName (escapeName n ++ d) = some (n, d) ∧
-    CT.readName (escapeName n ++ d) = .tok (.name n) d := by
-  simp [endsContent] at hd
-  exact ⟨spec_readName_escName n d hb hd.1, ct_readName_esc n d hb hu hd.2⟩
-
-example : NameBytes (myImage ++ [35, 47, 40, 0, 195, 169]) = true ∧
-    CT.validUtf8 (myImage ++ [35, 47, 40, 0, 195, 169]) = true := by decide
+/-- the names that broke the old emitter are fine now -/
+theorem C30_my_image_operator :
+    CT.parseView (opName myImage kDo) = some [(kDo, myImage)] ∧
+    CT.parseView (opName [65, 35, 52, 50] kDo) = some [(kDo, [65, 35, 52, 50])] ∧
+    Syntax.readContent (opName [65, 47, 66] ksh) = some [.operand (.name [65, 47, 66]), .operator ksh] :=
+  ⟨(C30_name_operator myImage kDo (by decide) (by decide) (by decide)).1,
+   (C30_name_operator [65, 35, 52, 50] kDo (by decide) (by decide) (by decide)).1,
+   (C30_name_operator [65, 47, 66] ksh (by decide) (by decide) (by decide)).2⟩
 
 /-- the escaped emission leaves printable names without delimiters / `#` as they are (no change
     for files that are right today) -/
@@ -343,15 +286,129 @@ theorem C30_escape_identity_on_printable (n : List Nat) (h : PrintableName n = t
       omega
     simp [escapeName, this, ih h.2]
 
-/-- (C) for ALL names with the repaired emitter: `/` escaped-name ` Do\n` parses to exactly one
-    operator with the user's name — the name the dictionary site yields -/
-theorem C30_escaped_name_operator (n kw : List Nat) (hb : NameBytes n = true)
-    (hu : CT.validUtf8 n = true) (hk : nameKw kw = true) :
-    CT.parseView (opNameEscaped n kw) = some [(kw, n)] ∧
-    Syntax.readContent (opNameEscaped n kw) = some [.operand (.name n), .operator kw] := by
-  have h := C30_escaped_operand_all_names n (32 :: (kw ++ [10])) hb hu (endsContent_space _)
-  exact ⟨parseView_name_kw (escapeName n) n kw hk h.2, spec_content_name_kw (escapeName n) n kw hk h.1⟩
 
-example : opNameEscaped myImage kDo = [47, 77, 121, 35, 50, 48, 73, 109, 97, 103, 101, 32, 68, 111, 10] := by decide
+/-! ### font selection: `/esc(n) size Tf` -/
+
+/-- the tail ` 12 Tf\n` of a font-selection line -/
+def tfTail : List Nat := [32, 49, 50, 32, 84, 102, 10]
+
+theorem tokenize_tf_tail (f : Nat) :
+    CT.tokenize (f + 2) tfTail = ([.integer 12, .operator kTf], false) := by
+  have h1 : CT.nextToken tfTail = .tok (.integer 12) [32, 84, 102, 10] := by rfl
+  have h2 : CT.nextToken [32, 84, 102, 10] = .tok (.operator kTf) [10] := by rfl
+  show CT.tokenize (f + 1 + 1) _ = _
+  simp only [CT.tokenize, h1]
+  simp [h2, tokenize_end]
+  decide
+
+theorem spec_content_tf_tail (f : Nat) :
+    Syntax.readContentAux (f + 3) tfTail = some [.operand (.int 12), .operator kTf] := by rfl
+
+/-- `/esc(n) 12 Tf\n` for ALL names: exactly one `Tf` with the font name `n` -/
+theorem C30_tf_operator (n : List Nat) (hb : NameBytes n = true) (hu : CT.validUtf8 n = true) :
+    CT.parseView (opTf n [49, 50]) = some [(kTf, n)] ∧
+    Syntax.readContent (opTf n [49, 50]) = some [.operand (.name n), .operand (.int 12), .operator kTf] := by
+  have h := C30_operand_all_names n tfTail hb hu (by decide)
+  have e : opTf n [49, 50] = 47 :: (escapeName n ++ tfTail) := by simp [opTf, tfTail]
+  rw [e]
+  constructor
+  · have h1 : CT.nextToken (47 :: (escapeName n ++ tfTail)) = .tok (.name n) tfTail := by
+      simp [CT.nextToken, CT.nextTok, CT.isWs, CT.isDigit, h.2]
+    have hl : (47 :: (escapeName n ++ tfTail)).length + 1 = ((escapeName n).length + 6 + 2) + 1 := by
+      simp [tfTail]
+    unfold CT.parseView
+    rw [hl, tokenize_step_name _ _ n _ h1, tokenize_tf_tail]
+    rfl
+  · have hl : (47 :: (escapeName n ++ tfTail)).length + 1 = ((escapeName n).length + 5 + 3) + 1 := by
+      simp [tfTail]
+    unfold Syntax.readContent
+    rw [hl, spec_content_step_name (escapeName n) _ n _ h.1, spec_content_tf_tail]
+
+example : opTf myImage [49, 50] = [47, 77, 121, 35, 50, 48, 73, 109, 97, 103, 101, 32, 49, 50, 32, 84, 102, 10] := by decide
+
+/-! ## the content site before its repair (`opNameOld`: raw operands) — regression statements -/
+
+/-- raw operands were right only on the safe fragment (regular characters, no `#`, ASCII) … -/
+theorem C30_old_raw_operand_roundtrip (n d : List Nat) (hn : SafeName n = true) (hd : endsContent d = true) :
+    Syntax.readName (n ++ d) = some (n, d) ∧ CT.readName (n ++ d) = .tok (.name n) d := by
+  simp [endsContent] at hd
+  exact ⟨spec_readName_raw n d (safe_specOk n hn) hd.1,
+    ct_readName_raw n d (safe_reg n hn) (validUtf8_ascii n (safe_ascii n hn)) hd.2⟩
+
+example : SafeName [73, 109, 49, 45, 95, 46, 43, 1, 127] = true ∧ SafeName [] = true := by decide
+
+theorem C30_printable_names_safe (n : List Nat) (h : PrintableName n = true) : SafeName n = true :=
+  printable_safe n h
+
+example : PrintableName [77, 121, 73, 109, 97, 103, 101, 33, 126] = true := by decide
+
+/-- … and on regular non-ASCII bytes -/
+theorem C30_old_raw_operand_bytes (n d : List Nat) (hn : RegName n = true) (hu : CT.validUtf8 n = true)
+    (hd : endsContent d = true) :
+    Syntax.readName (n ++ d) = some (n, d) ∧ CT.readName (n ++ d) = .tok (.name n) d := by
+  simp [endsContent] at hd
+  exact ⟨spec_readName_reg n d hn hd.1, ct_readName_raw n d hn hu hd.2⟩
+
+example : RegName [195, 169, 226, 130, 172] = true ∧ CT.validUtf8 [195, 169, 226, 130, 172] = true := by decide
+
+theorem C30_old_name_operator_safe (n kw : List Nat) (hn : SafeName n = true) (hk : nameKw kw = true) :
+    CT.parseView (opNameOld n kw) = some [(kw, n)] ∧
+    Syntax.readContent (opNameOld n kw) = some [.operand (.name n), .operator kw] := by
+  have h := C30_old_raw_operand_roundtrip n (32 :: (kw ++ [10])) hn (endsContent_space _)
+  exact ⟨parseView_name_kw n n kw hk h.2, spec_content_name_kw n n kw hk h.1⟩
+
+example : opNameOld [73, 109] kDo = [47, 73, 109, 32, 68, 111, 10] := by decide
+
+/-- `draw_image("My Image", …)` wrote `/My Image Do`: the library's content parser found no `Do`
+    with a name operand at all; an ISO reader saw the name `My`, an operator `Image`, a bare `Do` -/
+theorem C30_old_witness_space_content :
+    CT.parseView (opNameOld myImage kDo) = some [] ∧
+    Syntax.readContent (opNameOld myImage kDo) = some [.operand (.name [77, 121]), .operator [73, 109, 97, 103, 101], .operator kDo] := by
+  constructor <;> rfl
+
+theorem C30_old_witness_space_content_ne :
+    ¬ (CT.parseView (opNameOld myImage kDo) = some [(kDo, myImage)]) := by
+  rw [C30_old_witness_space_content.1]; decide
+
+/-- between the two repairs the sites disagreed: the key for `My Image` resolved, the raw operand
+    did not -/
+theorem C30_old_witness_key_resolves_operand_does_not :
+    Syntax.read (ser (.dict [(myImage, .ref 6 0)])) = some (.dict [(myImage, .ref 6 0)], []) ∧
+    ObjParser.parse (ser (.dict [(myImage, .ref 6 0)]) ++ [10]) = .ok (.dict [(myImage, .ref 6 0)], [10]) ∧
+    Syntax.readName (myImage ++ [32, 68, 111, 10]) = some ([77, 121], [32, 73, 109, 97, 103, 101, 32, 68, 111, 10]) ∧
+    CT.readName (myImage ++ [32, 68, 111, 10]) = .tok (.name [77, 121]) [32, 73, 109, 97, 103, 101, 32, 68, 111, 10] := by
+  refine ⟨by rfl, by rfl, by rfl, by rfl⟩
+
+/-- raw `A#42` was read back as `AB` by both content readers -/
+theorem C30_old_witness_hash :
+    Syntax.readName ([65, 35, 52, 50] ++ [32]) = some ([65, 66], [32]) ∧
+    CT.readName ([65, 35, 52, 50] ++ [32]) = .tok (.name [65, 66]) [32] := by
+  refine ⟨by rfl, by rfl⟩
+
+/-- raw `A#zz`: rejected by the independent reader; the content tokenizer failed and silently
+    dropped the rest of the content stream -/
+theorem C30_old_witness_hash_invalid :
+    Syntax.readName ([65, 35, 122, 122] ++ [32]) = none ∧
+    CT.readName ([65, 35, 122, 122] ++ [32]) = .err ∧
+    CT.parseView (opNameOld [65, 35, 122, 122] kDo ++ opNameOld [66] kDo) = some [] := by
+  refine ⟨by rfl, by rfl, by rfl⟩
+
+/-- raw `A/B`: the name `A` followed by the name `B` — `Do` painted `B` -/
+theorem C30_old_witness_solidus :
+    Syntax.readName ([65, 47, 66] ++ [32]) = some ([65], [47, 66, 32]) ∧
+    CT.parseView (opNameOld [65, 47, 66] kDo) = some [(kDo, [66])] := by
+  refine ⟨by rfl, by rfl⟩
+
+/-- raw `A(B`: the `(` opened a literal string that swallowed the rest of the content stream -/
+theorem C30_old_witness_paren :
+    CT.parseView (opNameOld [65, 40, 66] kDo) = some [] ∧
+    Syntax.readContent (opNameOld [65, 40, 66] kDo) = none := by
+  refine ⟨by rfl, by rfl⟩
+
+/-- raw NUL: white space for ISO 32000-1, an ordinary name byte for the library's tokenizer -/
+theorem C30_old_witness_nul :
+    Syntax.readName ([65, 0, 66] ++ [32]) = some ([65], [0, 66, 32]) ∧
+    CT.readName ([65, 0, 66] ++ [32]) = .tok (.name [65, 0, 66]) [32] := by
+  refine ⟨by rfl, by rfl⟩
 
 end OxiVerif.C30
